@@ -126,6 +126,11 @@ impl Indexable for ast::Include {
             return None;
         };
 
+        // a file included along several paths (or recursively) is indexed once
+        if !ctx.mark_indexed(include_file_id) {
+            return None;
+        }
+
         let parse = ctx.db.parse(include_file_id);
         let source_file = ast::SourceFile::cast(parse.syntax_node())?;
 
